@@ -52,6 +52,14 @@ def _mk(kind, bs):
         return K.RQKernel(batch_shape=bsz)
     if kind == "linear":
         return K.LinearKernel(batch_shape=bsz)
+    if kind == "rbf_grad":
+        return K.RBFKernelGrad(ard_num_dims=2, batch_shape=bsz)
+    if kind == "rbf_gradgrad":
+        return K.RBFKernelGradGrad(batch_shape=bsz)
+    if kind == "matern52_grad":
+        return K.Matern52KernelGrad(batch_shape=bsz)
+    if kind == "poly_grad":
+        return K.PolynomialKernelGrad(2, batch_shape=bsz)
     if kind == "multitask":
         return K.MultitaskKernel(K.RBFKernel(batch_shape=bsz), num_tasks=2, rank=1, batch_shape=bsz)
     if kind == "periodic":
@@ -83,7 +91,7 @@ def kernel(S, kind, pbs, dbs1, dbs2):
     out_bs = np.broadcast_shapes(pbs, dbs1, dbs2)
     with S.mode():
         Kb = S.must_not_raise("%s kernel with batch %s on inputs of batch %s / %s" % (kind, pbs, dbs1, dbs2), lambda: dense(k(x1, x2)))
-        outs = 2 if kind == "multitask" else 1
+        outs = {"multitask": 2, "rbf_grad": 3, "matern52_grad": 3, "poly_grad": 3, "rbf_gradgrad": 5}.get(kind, 1)
         S.check_concrete(tuple(Kb.shape) == tuple(out_bs) + (2 * outs, 3 * outs), "batched kernel shape", str(tuple(Kb.shape)))
         for b in np.ndindex(*out_bs):
             rep = _mk(kind, ())
@@ -357,6 +365,10 @@ def scenarios(tier, seed):
             add("kernel", kind=["rbf", "scale_rbf", "rq", "linear"][i % 4], pbs=list(p), dbs1=list(d), dbs2=list(d if i % 2 else (d[-1:] if d else ())))
         for kind in ("multitask", "periodic"):
             add("kernel", kind=kind, pbs=[2], dbs1=[2], dbs2=[2])
+        add("kernel", kind="rbf_grad", pbs=[2], dbs1=[], dbs2=[])
+        add("kernel", kind="matern52_grad", pbs=[], dbs1=[2], dbs2=[])
+        add("kernel", kind="poly_grad", pbs=[2], dbs1=[2, 1], dbs2=[2, 1])
+        add("kernel", kind="rbf_gradgrad", pbs=[2], dbs1=[], dbs2=[2])
         add("kernel", kind="multitask", pbs=[2], dbs1=[], dbs2=[])
         add("hamming_batch", pbs=[2], dbs=[2])
         add("hamming_batch", pbs=[3], dbs=[])
@@ -379,7 +391,7 @@ def scenarios(tier, seed):
         for kind in ("rbf", "rq", "linear", "rbf+linear", "rbf*linear", "scale(rbf+rq)", "scale_rbf"):
             for B in (2, 3):
                 add("kernel_index", kind=kind, B=B, diag=True)
-        for kind in ("multitask", "periodic", "matern15", "poly3", "cosine"):
+        for kind in ("multitask", "periodic", "matern15", "poly3", "cosine", "rbf_grad", "matern52_grad", "poly_grad", "rbf_gradgrad"):
             for (p, d) in [((2,), (2,)), ((2,), ()), ((), (2,)), ((2,), (3, 2)), ((2, 1), (1, 2))]:
                 add("kernel", kind=kind, pbs=list(p), dbs1=list(d), dbs2=list(d))
         for (p, d) in [((2,), (2,)), ((3,), ()), ((), (2,)), ((2,), (3, 2))]:
